@@ -293,29 +293,63 @@ def shape_with_env(e, env, at=None):
 
 
 
-def _guard_param(node, env):
-    """index of the parameter a guard is a plain test of (`flag`, `!flag`, `flag == 0`), else None"""
-    if isinstance(node, tuple):
-        return None
-    e = node
-    while is_node(e) and (e["k"] == "Cast" or (e["k"] == "Unary" and e["op"] == "!")):
-        e = e["e"]
-    if is_node(e) and e["k"] == "Ref" and e.get("rk") == "param" and e.get("id") in env.param_index:
-        return env.param_index[e["id"]]
-    return None
+def _mentions_params(node, env):
+    e = node[1] if isinstance(node, tuple) and len(node) > 1 else node
+    if not is_node(e) or e.get("k") == "VerOr":
+        return False
+    return any(x["k"] == "Ref" and x.get("rk") == "param" and x.get("id") in env.param_index for x in walk(e))
 
 
-def _canon_guards(g, env, at):
-    """guards that depend on locals are re-rendered with the locals named like in length expressions (a transferred local by
-    its distance in stream operations), so an inlined or extracted helper with other local names gives the same gate; a
-    guard that is a plain test of a parameter carries the parameter's index, so that the caller can replace it by the
-    argument it passes (`syncOptional(hasBaseTex, baseTex)` is gated by `hasBaseTex`, not by the helper's `flag`)."""
+def _bool_local_defs(env):
+    """{var id: initialiser} of the bool locals of the function that are never assigned after their declaration"""
+    d = getattr(env, "_bool_defs", None)
+    if d is None:
+        d = {}
+        body = env.fn.get("body") or {}
+        assigned = set()
+        for n in walk(body):
+            t = n["l"] if n["k"] == "Assign" else (n["e"] if n["k"] == "Unary" and n["op"] in ("++", "--") else None)
+            if is_node(t) and t["k"] == "Ref":
+                assigned.add(t.get("id"))
+        for n in walk(body):
+            if n["k"] == "Decl":
+                for v in n.get("vars", []):
+                    if (v.get("ct") or v.get("t") or "").replace("const ", "").strip() == "bool" and is_node(v.get("init")) \
+                            and v["id"] not in assigned:
+                        d[v["id"]] = v["init"]
+        env._bool_defs = d
+    return d
+
+
+def _facts_to_triples(facts_, env):
+    return flow.normalize_guards((f[1], f[2], _local_guard(f, env)) for f in facts_ if f[0] == "G")
+
+
+def _canon_guards(g, env, at, depth=0):
+    """* a guard on a bool local that is defined once (`const bool isOld = File() < V;`) is replaced by what its definition
+      implies, so caching a test in a named flag changes nothing;
+    * guards that depend on other locals are re-rendered with the locals named like in length expressions, so an inlined or
+      extracted helper with other local names gives the same gate;
+    * a guard that mentions parameters of the function is marked, so that the caller replaces the parameters by the
+      arguments it passes (`syncOptional(hasBaseTex, baseTex)` is gated by `hasBaseTex`, `Put(fileVersion)` by the version)."""
     out = []
+    defs = _bool_local_defs(env)
     for t in g:
         key, pol, local = t[0], t[1], t[2]
         node = flow.KEYNODE.get(key)
-        pi = _guard_param(node, env) if node is not None else None
-        if local and node is not None:
+        e = node
+        neg = False
+        while is_node(e) and (e["k"] == "Cast" or (e["k"] == "Unary" and e["op"] == "!")):
+            if e["k"] == "Unary":
+                neg = not neg
+            e = e["e"]
+        if depth < 4 and is_node(e) and e["k"] == "Ref" and e.get("rk") == "local" and e.get("id") in defs:
+            sub = flow.implied(defs[e["id"]], pol != neg)
+            sub = flow._mark_version(sub)
+            out.extend(_canon_guards(_facts_to_triples(sub, env), env, at, depth + 1))
+            continue
+        px = node is not None and _mentions_params(node, env)
+        if local and node is not None and not px:
             try:
                 if isinstance(node, tuple) and len(node) == 3 and node[0] == "cmp" and is_node(node[1]):
                     k2, p2 = flow.norm_cmp(node[1], lambda x: shape_with_env(x, env, at))
@@ -329,8 +363,18 @@ def _canon_guards(g, env, at):
                         key = k2
             except Exception:
                 pass
-        out.append((key, pol, local) + ((("p", pi),) if pi is not None else ()))
-    return tuple(sorted(set(out), key=lambda t: (t[0], str(t[1:]))))
+        out.append((key, pol, local) + ((("px", t[0]),) if px else ()))
+    return tuple(sorted(set(out), key=lambda t: (t[0], str(t[1]), str(t[2]))))
+
+
+def _subst_expr(e, mapping):
+    if isinstance(e, list):
+        return [_subst_expr(x, mapping) for x in e]
+    if not isinstance(e, dict):
+        return e
+    if e.get("k") == "Ref" and e.get("id") in mapping:
+        return mapping[e["id"]]
+    return {k: _subst_expr(v, mapping) for k, v in e.items()}
 
 
 def _local_guard(f, env):
@@ -560,7 +604,7 @@ class Summarizer:
                         cc[ai] = pconst[a["id"]]
                 for ev in self.events(t, depth + 1, cc):
                     if any(len(x) > 3 for x in ev.guards):
-                        ev = Event(ev.path, ev.kind, ev.info, self._subst_guards(ev.guards, args, env, n), ev.chain, ev.loops)
+                        ev = Event(ev.path, ev.kind, ev.info, self._subst_guards(ev.guards, args, env, n, callee), ev.chain, ev.loops)
                     if cenv_is_lambda and ev.path is not None and ev.path[0][0] in ("this", "$v"):
                         # lambda bodies see the enclosing frame directly ([&] / [this] captures)
                         np = self._lambda_path(ev.path, env)
@@ -628,23 +672,26 @@ class Summarizer:
                             out.append(into_caller(ev))
         return out
 
-    def _subst_guards(self, guards, args, env, at):
-        """callee guards that test a parameter become guards on the argument the caller passes"""
+    def _subst_guards(self, guards, args, env, at, callee=None):
+        """callee guards that mention parameters become guards on the arguments the caller passes"""
         out = []
+        params = (callee or {}).get("params", [])
+        mapping = {p_["id"]: args[i] for i, p_ in enumerate(params) if i < len(args) and is_node(args[i])}
         for t in guards:
-            if len(t) > 3 and t[3][0] == "p" and t[3][1] < len(args) and is_node(args[t[3][1]]):
-                a = args[t[3][1]]
-                while is_node(a) and a["k"] == "Cast":
-                    a = a["e"]
-                pol = t[1]
-                if is_node(a) and a.get("val") is not None and a["k"] != "Ref":
-                    continue  # a constant argument: the guard is decided (the dead alternative was pruned by the const binding)
-                key = show(a)
-                flow.KEYNODE.setdefault(key, a)
-                fake = ("G", key, pol, flow.deps_of(a))
-                nt = (key, pol, _local_guard(fake, env))
-                pi = _guard_param(a, env)
-                out.append(nt + ((("p", pi),) if pi is not None else ()))
+            if len(t) > 3 and t[3][0] == "px" and mapping:
+                node = flow.KEYNODE.get(t[3][1])
+                if node is None:
+                    out.append(t[:3])
+                    continue
+                if isinstance(node, tuple) and len(node) == 3 and node[0] == "cmp":
+                    e_sub, truth = _subst_expr(node[1], mapping), (t[1] == node[2])
+                else:
+                    e_sub, truth = _subst_expr(node, mapping), t[1]
+                cv = _const_eval(e_sub, {})
+                if cv is not None:
+                    continue  # decided by constant arguments (the dead alternative was pruned by the const binding)
+                facts_ = flow._mark_version(flow.implied(e_sub, truth))
+                out.extend(_canon_guards(_facts_to_triples(facts_, env), env, at))
             else:
                 out.append(t)
         return tuple(out)
